@@ -70,6 +70,10 @@ func behSuite(tier string) []*families.Case {
 		cs = append(cs, families.F10(4, 4, []string{"", "i"})...)
 		cs = append(cs, families.F11(6, 5, []string{"", "s", "is"})...)
 		cs = append(cs, families.F12(4, spec.AllVariants)...)
+		cs = append(cs, families.F13(4, []string{"", "is"}, 0)...)
+		cs = append(cs, families.F14(4, spec.AllVariants)...)
+		cs = append(cs, families.F15(3, spec.AllVariants)...)
+		cs = append(cs, families.NestedCaptures(5, spec.AllVariants)...)
 		h := append(families.F1(1, 3, 0, nil), families.F4(0, nil)...)
 		h = append(h, families.F7(2, 0, nil)...)
 		cs = append(cs, families.Hostile(h, 4, []string{"", "is", "n"})...)
@@ -85,6 +89,10 @@ func behSuite(tier string) []*families.Case {
 		cs = append(cs, families.F10(4, 4, []string{""})...)
 		cs = append(cs, families.F11(4, 5, []string{"", "s"})...)
 		cs = append(cs, families.F12(3, []string{"", "i", "n"})...)
+		cs = append(cs, families.F13(4, []string{""}, 24)...)
+		cs = append(cs, families.F14(4, []string{"", "is", "n"})...)
+		cs = append(cs, families.F15(3, []string{"", "s"})...)
+		cs = append(cs, families.NestedCaptures(5, []string{"", "n", "nis"})...)
 		h := append(families.F1(1, 2, 0, nil), families.F4(0, nil)[:40]...)
 		cs = append(cs, families.Hostile(h, 3, []string{"", "is"})...)
 	}
